@@ -84,7 +84,9 @@ CLAIMED['C09'] = dict(
          'gate they replace for all inputs and cover every post-synthesis op; the chain of 2-operand concats equals the '
          'n-operand concat at every width; concatenated single-bit selects equal any select (repeats/strides/reversals); '
          'the fan-out tree of a wire of fan-out n has n leaves all carrying its value with binary branching; truncation '
-         'through a removed w net composes. Whole-pass behaviour, sanity_check, I/O preservation and each stated '
+         'through a removed w net composes. Netlist level: a gadget over fresh wires that recomputes a net may replace it '
+         'anywhere in any schedule without changing any other wire (local_rewrite_preserves), instantiated for the '
+         'nand_synth AND rewrite at every width (nand_synth_and_netlist). Whole-pass behaviour, sanity_check, I/O preservation and each stated '
          'postcondition are decided on the real result for every single pass and random sequences, by evaluating source '
          'and result in the Lean Spec model.',
     design='4 C09',
@@ -97,7 +99,7 @@ CLAIMED['C10'] = dict(
          'every op class, every bitwidth rule, bad/missing parameters) is rejected wherever the net sits, API-shaped '
          'nets are not rejected; block-level model of sanity_check + acyclicity rejects duplicate names and double '
          'drivers; the dependency-order checker is proved sound (isTopo_sound, order-independence of evaluation in '
-         'C01). Correspondence: 12 fault classes injected into live blocks, sanity_check and all three simulator '
+         'C01). Correspondence: 13 fault classes injected into live blocks, sanity_check and all three simulator '
          'constructors must raise, the Lean model must classify every good and faulty block identically; real Block '
          'iteration under native and hooked tie-breaks is checked to be exactly-once and a dependency order. The '
          'Block.__iter__ worklist is modelled as a relation (any ready net may be picked): every complete run is a '
@@ -115,7 +117,9 @@ CLAIMED['C05'] = dict(
          'values, the assignment the exporter emits stores exactly Spec.comb (emit_assign_eq_spec; per-op lemmas incl. '
          '`-` in a wider context, `~` truncated, mux arm order, select reversal and scalar selects, concat of any '
          'arity); memory read ports, unsized constants, the register block in its reset flavours and memory write ports '
-         'at statement level. Correspondence per run: the text written by output_to_verilog is parsed by a strict '
+         'at statement level; module level: under the well-formedness of C01 the valuation of the documented cycle '
+         'semantics satisfies EVERY continuous assignment of the emitted module (verilog_assigns_hold), i.e. it is the '
+         '(unique) solution of the emitted assignment system. Correspondence per run: the text written by output_to_verilog is parsed by a strict '
          'recogniser (anything outside the subset is an error) and must equal the emit model as an AST. Oracle per run: '
          'the parsed module is executed by the Lean evaluator against pyrtl.Simulation cycle by cycle for each add_reset, '
          'incl. a rst pulse; testbenches from traces of all three simulators are parsed: inputs = trace, initial '
@@ -138,7 +142,7 @@ CLAIMED['C06'] = dict(
          'compared with exact integer arithmetic and with the Lean impl models, exhaustively for small width pairs and '
          'on boundary/random values up to 130 bits. Signed helpers: sign extension keeps the two\'s-complement value at '
          'every target width; signed_lt is exactly the comparison of the signed values for operands of any two widths '
-         '(the r[-1]^~a[-1]^~b[-1] trick); signed_add is the exact signed sum at max+1 bits. PARTIAL: signed_mult, '
+         '(the r[-1]^~a[-1]^~b[-1] trick); signed_add is the exact signed sum at max+1 bits and signed_mult the exact signed product at len(a)+len(b) bits. PARTIAL: '
          'signed_le/gt/ge and the constant shifts have tied models and differential checks but no theorem.',
     design='4 C06',
     note=NOTE_COMMON + 'Python slice -> index list is CPython\'s own range(w)[item].',
